@@ -409,6 +409,36 @@ def regularAll : List PT → Scope → Bool
   | p :: ps, σ => regular p σ && regularAll ps σ
 end
 
+mutual
+/-- the quantifier of the correspondence run (weaker than `regular`: without the agreement of the durations of the
+parts of atomic multi channel / atomic arithmetic templates and with the entry times of point templates only
+non-negative): an assignment outside it is not judged -/
+def regularBase : PT → Scope → Bool
+  | .const _ dur _ _, σ => evalsTo σ dur (fun d => decide (0 ≤ d))
+  | .table _ entries _ _, σ => entries.all (fun x => match instEntries σ x.2 with
+      | .ok ws => sortedTimes ws && ws.all (fun w => decide (0 ≤ w.t))
+      | .error _ => false)
+  | .point _ _ entries _ _, σ => entries.all (fun x => evalsTo σ x.t (fun t => decide (0 ≤ t)))
+  | .func _ _ dur _ _ _, σ => evalsTo σ dur (fun d => decide (0 ≤ d))
+  | .seq _ subs _ _, σ => regularBaseAll subs σ
+  | .rep _ body count _ _, σ => evalsTo σ count (fun c => isInt c && decide (0 ≤ c)) && regularBase body σ
+  | .forLoop _ body idx start stop step _ _, σ =>
+      match σ.eval start, σ.eval stop, σ.eval step with
+      | .ok a, .ok b, .ok s =>
+          isInt a && isInt b && isInt s && decide (s ≠ 0) &&
+          (pyRange a.num b.num s.num).all (fun (i : Int) => regularBase body (.range σ idx (i : Rat)))
+      | _, _, _ => false
+  | .mapping _ body pm _ _ _, σ => regularBase body (.mapped σ pm)
+  | .parallel _ body _, σ => regularBase body σ
+  | .atomicMulti _ subs _ _ _, σ => regularBaseAll subs σ
+  | .arith _ body _ _ _, σ => regularBase body σ
+  | .arithAtomic _ lhs _ rhs _, σ => regularBase lhs σ && regularBase rhs σ
+  | .timeReversal _ body, σ => regularBase body σ
+def regularBaseAll : List PT → Scope → Bool
+  | [], _ => true
+  | p :: ps, σ => regularBase p σ && regularBaseAll ps σ
+end
+
 /-- at least one of the channels is kept by the channel mapping -/
 def keepsSome (cm : List (Chan × Option Chan)) (cs : List Chan) : Bool :=
   cs.any (fun c => match cm.lookup c with | some (some _) => true | _ => false)
@@ -596,7 +626,7 @@ def InjOn (cm : List (Chan × Option Chan)) (chans : List Chan) : Prop :=
 /-! ## Line protocol
 
 `(c07 run (pt <PT>) (params (n q)...) [(sampled (ch (len v0 v1)...)...)] [(pad q)])` →
-`((chans c...) (regular b) (tdur r) (model (c (integral r) (initial r) (final r) (provides b b))...)
+`((chans c...) (regular b) (covered b) (tdur r) (model (c (integral r) (initial r) (final r) (provides b b))...)
   (spec ok|empty|(error cls) (dur q) (c (integral q) (first q|none) (last q|none) (tags-first t...) (tags-last t...))...)
   (sampled (c (integral q) (first ..) (last ..))...) (pad ...))` with `r = (ok q) | (error cls)`. -/
 
@@ -674,7 +704,8 @@ def handle (args : List Sexp) : Sexp :=
           | some [d] => (match Sexp.rat? d with | some d => [padSx r.pt ctx d] | none => [])
           | _ => []
         .list ([.list (.atom "chans" :: r.pt.definedChannels.map Sexp.atom),
-                .list [.atom "regular", Sexp.ofBool (regular r.pt ctx.scope)],
+                .list [.atom "regular", Sexp.ofBool (regularBase r.pt ctx.scope)],
+                .list [.atom "covered", Sexp.ofBool (supported r.pt && regular r.pt ctx.scope && keeps r.pt ctx.cm)],
                 .list [.atom "tdur", resSx (templateDuration r.pt ctx.scope)],
                 modelSx r.pt ctx.scope,
                 specSx r.pt ctx,
